@@ -238,6 +238,13 @@ def run(chk):
         m = res_decode(m, lambda r: ''.join(map(chr, r)))
         # the secret and the key are bytes-like: bytes, bytearray and memoryview hash alike
         shape_s, shape_k = rng.choice([bytes, bytes, bytearray, memoryview]), rng.choice([bytes, bytes, bytearray, memoryview])
+        if rng.random() < 0.25:
+            # an earlier call that fails half-way (text or nothing where bytes are due) leaves nothing behind for the next one
+            for bad_args in ((sid or 'x', 'not bytes', key), (sid or 'x', secret, None), ('x' * 5, None, None)):
+                try:
+                    encryption.generate_verification_hash(*bad_args)
+                except Exception:
+                    pass
         try:
             got = ['ok', encryption.generate_verification_hash(sid, shape_s(secret), shape_k(key))]
         except Exception as e:
